@@ -190,6 +190,8 @@ REAL_E2 = dict(real=["server.Manager.HandleCluster connection loop and proposal/
 
 PROPS["C07"] = dict(
     engine="e2", level="exploration",
+    phases=[dict(engine="e2", test="TestWorker", share=0.85),
+            dict(engine="e2", race=True, test="TestRaceSweep", share=0.15)],
     rule="one evaluation = one seeded run of a 1/3/5-node cluster: 2-5 clients send 12-60 single- and multi-key commands (unique values) to "
          "tape-chosen nodes while the tape schedules every message delivery, raft tick and client step and the adversary injects message "
          "drop/reorder/delay, partitions (symmetric, asymmetric, leader isolated) and heals, slow nodes, crash-restart of a minority at "
@@ -197,7 +199,9 @@ PROPS["C07"] = dict(
          "command within 60 simulated seconds and every key is read back on every node; oracles = porcupine over the client history against "
          "the reference model (unanswered commands stay pending), equal keyspace dumps for equal applied index after every step and at the "
          "end, no node death; non-trivial = at least two clients answered and (unless the fault-free configuration) at least one fault fired; "
-         "distinct = distinct hash of the full event trace (events, messages with term/index, replies)",
+         "distinct = distinct hash of the full event trace (events, messages with term/index, replies); a second phase (race sweep, 15 % of "
+         "the budget) runs a binary built with -race at GOMAXPROCS 4 in which several clients of one node send in the same window, so that "
+         "connection handlers and the apply loop truly run in parallel: any DATA RACE report or runtime abort is a violation (replay_exact false)",
     state_measure="hash of the per-node (term, role, commit, applied) vector after each step, plus final keyspace dumps",
     components=REAL_E2,
     assumptions=["workload restricted to commands on which the standalone server agrees with the reference model (pre-screened per run), "
